@@ -1023,7 +1023,7 @@ fn pools(rng: &mut Rng, rep: &mut Report) -> Pools {
             while (keys.len() as u64) < n {
                 keys.insert(rng.id32(6));
             }
-            keys.into_iter().map(|k| (k, rng.arr())).collect()
+            keys.into_iter().map(|k| (k, if rng.chance(1, 4) { [0u8; 32] } else { rng.arr() })).collect()
         })
         .collect();
     let salts = (0..rng.range(1, 3)).map(|_| rng.arr()).collect();
